@@ -216,4 +216,62 @@ theorem matchInt_printInt (a : AS) (v : Int) (ws k : List Nat) (hr : a.rest = ws
     have hvv : (v.toNat : Int) = v := by omega
     simp [hd45, hvv]
 
+/-- sign prefix of a number token: nothing, '+' or '-'. -/
+inductive Sign where | none | plus | minus
+deriving Repr, DecidableEq
+
+def Sign.text : Sign → List Nat
+  | .none => [] | .plus => [43] | .minus => [45]
+def Sign.apply : Sign → Nat → Int
+  | .minus, n => -(n : Int)
+  | _, n => (n : Int)
+
+/-- **general number token**: blanks, an optional sign, a non-empty digit string of ANY length, then a
+    non-digit.  The matcher returns the denoted value capped at 2^63-1 (with the sign applied). -/
+theorem matchInt_token (a : AS) (sg : Sign) (ds ws k : List Nat) (hr : a.rest = ws ++ (sg.text ++ (ds ++ k)))
+    (hws : ∀ c ∈ ws, isWs c = true) (hds : ∀ c ∈ ds, isDigit c = true) (hne : ds ≠ []) (hk : NDS k) :
+    ∃ a', a.matchInt false = (.val (sg.apply (min (val ds 0) I64MAX)), a') ∧ a'.rest = k := by
+  unfold AS.matchInt
+  simp only [Bool.false_eq_true, ↓reduceIte]
+  obtain ⟨d, r', e⟩ : ∃ d r', ds = d :: r' := by
+    cases ds with
+    | nil => exact absurd rfl hne
+    | cons d r' => exact ⟨d, r', rfl⟩
+  have hd : isDigit d = true := hds d (by rw [e]; simp)
+  have hnw : NWS (sg.text ++ (ds ++ k)) := by
+    intro c r h
+    cases sg with
+    | none => simp only [Sign.text, List.nil_append, e, List.cons_append, List.cons.injEq] at h
+              rw [← h.1]; simp [isDigit] at hd; simp [isWs]; omega
+    | plus => simp only [Sign.text, List.cons_append, List.nil_append, List.cons.injEq] at h; rw [← h.1]; simp [isWs]
+    | minus => simp only [Sign.text, List.cons_append, List.nil_append, List.cons.injEq] at h; rw [← h.1]; simp [isWs]
+  have hs := skipWs_spec a ws _ hr hws hnw
+  generalize a.skipWs = a0 at hs
+  unfold AS.matchIntCore AS.matchIntDigits
+  have hpk2 : ∀ (l : Nat) (u : Bool), AS.peek { rest := ds ++ k, line := l, canUnget := u } = d := by
+    intro l u; unfold AS.peek; simp only [e]; rfl
+  cases sg with
+  | none =>
+    simp only [Sign.text, List.nil_append] at hs
+    have hpk : a0.peek = d := by unfold AS.peek; rw [hs, e]; rfl
+    have hd43 : (d == 43) = false := by simp [isDigit] at hd; simp; omega
+    have hd45 : (d == 45) = false := by simp [isDigit] at hd; simp; omega
+    simp only [hpk, hd43, hd45, Bool.or_self, Bool.false_eq_true, ↓reduceIte, hd, Bool.not_true]
+    rw [hs, digitRun_append _ _ hds hk]
+    exact ⟨{ rest := k, line := a0.line, canUnget := true }, by simp [Sign.apply], rfl⟩
+  | plus =>
+    simp only [Sign.text, List.cons_append, List.nil_append] at hs
+    have hpk : a0.peek = 43 := by unfold AS.peek; rw [hs]; rfl
+    have hrest : a0.rest.tail = ds ++ k := by rw [hs]; rfl
+    simp only [hpk, beq_self_eq_true, Bool.true_or, ↓reduceIte, hrest, hpk2, hd, Bool.not_true, Bool.false_eq_true]
+    rw [digitRun_append _ _ hds hk]
+    exact ⟨{ rest := k, line := a0.line, canUnget := true }, by simp [Sign.apply], rfl⟩
+  | minus =>
+    simp only [Sign.text, List.cons_append, List.nil_append] at hs
+    have hpk : a0.peek = 45 := by unfold AS.peek; rw [hs]; rfl
+    have hrest : a0.rest.tail = ds ++ k := by rw [hs]; rfl
+    simp only [hpk, beq_self_eq_true, Bool.or_true, ↓reduceIte, hrest, hpk2, hd, Bool.not_true, Bool.false_eq_true]
+    rw [digitRun_append _ _ hds hk]
+    exact ⟨{ rest := k, line := a0.line, canUnget := true }, by simp [Sign.apply], rfl⟩
+
 end PotasscoVerif.Decimal
